@@ -185,7 +185,7 @@ func runC20(ctx *core.Ctx) {
 		core.InternalError("C20: VERIF_DISPATCH_FACTS not set (run through ./check)")
 	}
 	if shimAvailable {
-		k := tierN(ctx, 3, 4)
+		k := sz(ctx, 3, 3, 4)
 		n := latticeSize(k)
 		subC20.Run(ctx, n*n, func(i int) c20Case { return c20Case{"Multiply", elemIn{latticeAt(k, i/n)}, elemIn{latticeAt(k, i%n)}} })
 		n7 := latticeSize(7)
